@@ -280,7 +280,7 @@ CHECKS["C11"] = {
     "technique": "exhaustive enumeration of add/remove/update/growth histories on the real reduce_ node, result sampled in every cycle and compared "
                  "with the fold of a reference container (bit-disjoint operands identify exactly which elements were folded)",
     "design_ref": "DESIGN.md 2/C11",
-    "parts": [{"name": "reduce", "exe": "c11_reduce", "sources": ["c11_reduce.cpp"], "shards": 16}],
+    "parts": [{"name": "reduce", "exe": "c11_reduce", "sources": ["c11_reduce.cpp"], "shards": {"quick": 32, "thorough": 256}}],
     "rule": "inputs: scripted TSD<Int,TS<Int>> (set key to one of two bit-disjoint powers of two, erase, clear, bulk add of 6 keys crossing leaf "
             "capacities 1->2->4->8->16; thorough: 70 more keys => > 64 live elements) and fixed TSL<TS<Int>,4> (unset slots are not live); "
             "combiners: add_ operator, a static node, a sub-graph; zero = 2^20 or none; every sequence over T cycles of lists of <= L operations "
